@@ -863,3 +863,17 @@ def normalised_cmp(e, atom=None):
         return None
     d, k = _lin_add(la, lb, -1)
     return d, k, op
+
+
+def peel_await(e):
+    """`f(args).await` appears as Ready.0 of a poll of f's coroutine body over the future returned
+    by the call; return the call expression to f (or e unchanged)"""
+    x = e
+    if x[0] == "field" and x[2] == "0" and x[1][0] == "as" and x[1][2] == "Ready":
+        c = x[1][1]
+        if c[0] == "call" and re.search(r"::\{closure#\d+\}$", c[1]) and c[2]:
+            rs = roots(c[2][0])
+            rs = [r for r in rs if r[0] == "call"]
+            if len(rs) == 1 and rs[0][1] == re.sub(r"::\{closure#\d+\}$", "", c[1]):
+                return rs[0]
+    return e
